@@ -236,6 +236,9 @@ func (w *world) onBlockchain(c queue.Client, msg *queue.Message) {
 				}
 			}
 			w.mu.Unlock()
+			if w.ctx.Verbose {
+				w.ctx.Logf("    chain stub: duplicate query for %d hashes (first %s) -> %d on chain", len(hashes), hx(string(hashes[0])), len(dups))
+			}
 			msg.Reply(c.NewMessage("", types.EventTxHashListReply, &types.TxHashList{Hashes: dups}))
 		})
 	default:
